@@ -67,6 +67,11 @@ def make_case(rng, ref, k, sizes=None, equal_mass_neighbours=False):
     halo, part = hodref.gen_tables(rng, H, P, lbox=lbox, with_env=bool(k % 4) or equal_mass_neighbours, mass_step=0.7 if equal_mass_neighbours else None)
     sub = SUBSETS[k % 7] if not equal_mass_neighbours else [('LRG',), ('LRG', 'ELG'), ('LRG', 'ELG', 'QSO'), ('ELG', 'QSO')][k % 4]
     tracers = hodref.gen_tracers(rng, sub, fancy=[False, True, 'sparse'][k % 3] if not equal_mass_neighbours else True)
+    if equal_mass_neighbours and 'ELG' in tracers and k % 2:
+        # ELG thresholds that evolve with redshift while the conformity masses are left to their defaults (= the evolved logM1)
+        for key in ('logM1_EE', 'logM1_EL', 'alpha_EE', 'alpha_EL'):
+            tracers['ELG'].pop(key, None)
+        tracers['ELG'].update(z_pivot=0.8, logM_cut_pr=0.4, logM1_pr=-0.9)
     if (k // 3) % 2 and len(tracers) > 1:
         # the caller's dict may list the tracers in any order; results are labelled by tracer name
         names = list(tracers)
